@@ -5,8 +5,11 @@ Tie (model ↔ code, this run):
     (lambda signature + captured defaults + bytecode operator) into the closure IR of
     lean/Optyx/Py/Compile.lean and compared, as text, with `Py.compileExpression` run by the
     Lean driver — for V ∈ {own order, permutation, strict superset, duplicate name, missing
-    variable} and for the switch threshold forced to {0, 3, 400}; also *which builder* ran
-    (recursive / explicit-stack / Parameter bypass) and the error class + name for rejected input;
+    variable, span orders} and for the switch threshold forced to {0, 3, 400}; also *which builder*
+    ran (recursive / explicit-stack / Parameter bypass) and the error class + name for rejected
+    input.  Span orders (for every index-array closure `x[idx]`): all 24 orders of a 4-element
+    operand, endpoints in place with the interior permuted, a foreign variable inside the operand's
+    span with the displaced member outside, reversed — through both builders;
   * numeric (rtol 1e-9 + conditioning guard): compiled value, `evaluate`, the dict wrapper and
     `CompiledExpression.value` vs the model over Lean `Float`; parameters are `.set()` between
     compilation and call.
@@ -540,7 +543,7 @@ def run(ctx) -> core.Report:
                            "(+ duplicate / missing variable) × threshold ∈ {0,3,400}; non-trivial = distinct "
                            "(expression, V, point) with at least one variable whose value is finite")
     exprs = list(cell_cover(rng)) + chains(rng, thorough)
-    n_rand = 6000 if thorough else 700
+    n_rand = 25000 if thorough else 2000
     depth_hi = 6 if thorough else 4
     for i in range(n_rand):
         U = gen.Universe(rng)
